@@ -478,6 +478,15 @@ def built_variants(body):
 INT_TYPES = ('i8', 'i16', 'i32', 'i64', 'i128', 'isize', 'u8', 'u16', 'u32', 'u64', 'u128', 'usize')
 
 
+def int_fits(src, dst):
+    """every value of integer type src is a value of dst"""
+    def rng(ty):
+        bits = {'8': 8, '16': 16, '32': 32, '64': 64, '128': 128, 'size': 64}[ty[1:]]
+        return (-(1 << (bits - 1)), (1 << (bits - 1)) - 1) if ty[0] == 'i' else (0, (1 << bits) - 1)
+    (a, b), (c, d) = rng(src), rng(dst)
+    return c <= a and b <= d
+
+
 def num_type(kind):
     if not kind.startswith('num:'):
         return None
@@ -528,6 +537,31 @@ def placeholder_is_numeric(prog, fmt, piece, depth=0):
     return False
 
 
+def placeholder_int_types(prog, fmt, piece, depth=0):
+    """integer types whose decimal text can reach the placeholder (directly, or as `n.to_string()` through helper parameters)"""
+    ty = piece[2].replace('&', '')
+    if ty in INT_TYPES:
+        return {ty}
+    out = set()
+    if ty in ('std::string::String', 'str') and piece[1] is not None and depth < 4:
+        body = fmt.body
+        for r in origins(body, piece[1], stop_at_calls=True):
+            if r[0] == 'call':
+                t = body.term(r[1])
+                d = callee_decl(t)
+                t0 = t['f'].get('t0', '').replace('&', '')
+                if d in ('std::string::ToString::to_string',) and t0 in INT_TYPES:
+                    out.add(t0)
+                elif d in core.LOOK_THROUGH and t['args']:
+                    out |= placeholder_int_types(prog, fmt, ('arg', t['args'][0], piece[2], piece[3]), depth + 1)
+            elif r[0] == 'param':
+                for (cb, cbi) in prog.callers().get(body.id, []):
+                    t = cb.term(cbi)
+                    if r[1] - 1 < len(t['args']):
+                        out |= placeholder_int_types(prog, core.Fmt(cb, cbi, [], []), ('arg', t['args'][r[1] - 1], piece[2], piece[3]), depth + 1)
+    return out
+
+
 def check_template(prog, fmt, schema_top, alt_literal_ok=True):
     """compare one producer template with the parser schema of its command word.
     -> list of problems (strings); empty = agrees.  Also returns the mapping for reports."""
@@ -571,6 +605,12 @@ def check_template(prog, fmt, schema_top, alt_literal_ok=True):
             if s.kind.startswith('num:'):
                 if len(tok) == 1 and tok[0][0] == 'arg':
                     isnum = placeholder_is_numeric(prog, fmt, tok[0])
+                    sty = num_type(s.kind)
+                    if isnum is True and sty in INT_TYPES:
+                        wide = sorted(x for x in placeholder_int_types(prog, fmt, tok[0]) if not int_fits(x, sty))
+                        if wide:
+                            problems.append('numeric slot %s receives the text of a wider integer (%s): a value outside %s does not parse on the '
+                                            'receiver, which then falls back to its default or refuses the message' % (sty, ', '.join(wide), sty))
                     if isnum is False:
                         problems.append('numeric slot %s receives the non-numeric placeholder %s' % (num_type(s.kind), tok_text(tok)))
                     elif isnum is None:
